@@ -21,22 +21,28 @@ TRUSTED = [
     "hand-written model of DatasetBuilder (add_entities, add_relationships, filter_interactions, clear_relationships, build) and of "
     "MatrixRelationshipSet (sort, value_counts -> row sizes -> cumsum, every view) in Model/C01_dataset.v, tied by correspondence: the same "
     "operation list is run on the real builder, every view is dumped as raw arrays and compared inside Coq with the model's arrays "
-    "(exact; mean ratings within 2^-40 relative)",
+    "(exact; missing values as None on both sides; mean ratings within 2^-40 relative)",
     "Arrow kernels as contracts: sort_by returns the sorted permutation (the model uses a proved insertion sort), unique/is_in/index_in, "
     "value_counts, the left-anti join (row order of its output is not relied upon: the table is re-sorted at build), group_by aggregates; "
     "pandas Index look-ups; SciPy/PyTorch sparse constructors are exercised, not verified",
     "identifier canonicalisation: identifiers are mapped to Z by rank in sorted order (integers numerically, ASCII strings by code point = "
     "byte order), an order-isomorphism chosen by the harness",
+    "canonicalisation of attribute values and time bounds by the harness: Arrow null / NaN / NaT -> None, date-times -> whole seconds since "
+    "the epoch, ratings doubled; a time bound is handed to lenskit as int, float or naive date-time and to the model as the exact rational",
 ]
 ASSUMPTIONS = [
-    "identifiers of one entity class have one type (all integers or all ASCII strings); interaction frames of one case share one attribute schema",
-    "ratings are multiples of 1/2, timestamps and the extra column are integers (no nulls)",
+    "identifiers of one entity class have one type (all integers or all ASCII strings); interaction frames of one case draw their attribute columns from one "
+    "schema (a frame may lack some of them)",
+    "ratings are multiples of 1/2, timestamps (whole seconds, in an int64 column or an Arrow timestamp[s|ms|us|ns] column) and the extra "
+    "column are integers; any attribute value may be missing (Arrow null, NaN / NaT in a pandas frame); time bounds are multiples of 1/4 s",
 ]
 RULE = ("structured generator: 1-8 users x 1-8 items (integer or string identifiers in random order, with byte-order traps such as u10 < u2 "
-        "and upper before lower case), optional rating / timestamp / extra columns, 1-4 interaction batches with the insert / filter / error "
-        "policies, pre-declared and late entity additions, 0-3 filters (pairs, single column, time window), rare clear, builder or "
+        "and upper before lower case), optional rating / timestamp / extra columns with missing values (none, 1/4 or 1/2 of the values) and "
+        "batches that lack some of the columns, 1-4 interaction batches with the insert / filter / error "
+        "policies, pre-declared and late entity additions, 0-3 filters (pairs, single column, time window whose bounds are whole or fractional "
+        "seconds placed at / next to timestamps present in the data and given as int, float or date-time), rare clear, builder or "
         "from_interactions_df driver; malformed stream: duplicate ids, forbidden re-inserts, unknown ids under 'error', repeated pairs, "
-        "time filter without timestamps; non-trivial = the dataset was built, at least two records survive, at least one user or item has no "
+        "time filter without timestamps / before any batch carried the timestamp column; non-trivial = the dataset was built, at least two records survive, at least one user or item has no "
         "interaction, and the identifiers were not supplied in ascending order or arrived in more than one increment; distinct = by hash of the case")
 SHARD = 60
 
@@ -96,9 +102,35 @@ def pick_dtype(rng, declared):
     return rng.weighted([("int64", 5), (declared, 3), ("int32", 1), ("int16", 1), ("uint32", 1)])
 
 
-def gen_row(rng, u, i, schema):
-    return [u, i, rng.randint(1, 10) if schema["rating"] else None, rng.randint(0, 20) if schema["timestamp"] else None,
-            rng.randint(-3, 9) if schema["extra"] else None]
+def gen_row(rng, u, i, schema, pnull=0, cols=None):
+    """one input record [user, item, 2*rating, timestamp, extra]; None = the value is missing (or the column is not in the schema /
+    not carried by the frame: `cols`)"""
+    def val(name, lo, hi):
+        if not schema[name] or (cols is not None and name not in cols):
+            return None
+        v = rng.randint(lo, hi)
+        return None if pnull and rng.chance(1, pnull) else v
+    return [u, i, val("rating", 1, 10), val("timestamp", 0, 20), val("extra", -3, 9)]
+
+
+def qj(q):
+    "a rational time bound as JSON: an int when whole, else 'num/den'"
+    q = Fraction(q)
+    return int(q) if q.denominator == 1 else f"{q.numerator}/{q.denominator}"
+
+
+def qv(x):
+    return None if x is None else Fraction(x)
+
+
+def gen_bound(rng, seen_ts, lower):
+    "a time bound: mostly at / next to a timestamp present in the data (x, x +- 1/2, x +- 1, x + 1/4, x - 3/4), whole or fractional"
+    if seen_ts and rng.chance(3, 4):
+        q = Fraction(rng.choice(seen_ts)) + rng.choice([0, 0, Fraction(1, 2), Fraction(-1, 2), Fraction(1, 4), Fraction(-3, 4), 1, -1])
+    else:
+        q = Fraction(rng.randint(0, 12) if lower else rng.randint(8, 21)) + rng.choice([0, 0, Fraction(1, 2)])
+    style = rng.choice(["float", "datetime"] + (["int", "int"] if q.denominator == 1 else []))
+    return qj(q), style
 
 
 def gen_case(rng, malformed=False):
@@ -111,25 +143,33 @@ def gen_case(rng, malformed=False):
     nu, ni = len(users), len(items)
     uids, iids = users + adv_u, items + adv_i
     schema = {"rating": rng.chance(2, 3), "timestamp": rng.chance(1, 2), "extra": rng.chance(1, 4)}
+    pnull = rng.weighted([(0, 3), (4, 2), (2, 1)])       # missing attribute values: none, about 1/4, about 1/2 of the values
+    ragged = rng.chance(1, 3)                              # batches may lack some of the schema's columns
+    seen_ts = []                                           # timestamps generated so far (time bounds are placed at / next to them)
     case = {"kind_u": kind_u, "kind_i": kind_i, "uids": uids, "iids": iids, "schema": schema,
-            "ts_kind": rng.choice(["int", "datetime"]),      # Arrow type of the timestamp column: int64 or timestamp[s]
+            "ts_kind": rng.choice(["int", "datetime"]),      # Arrow type of the timestamp column: int64 or timestamp[unit]
+            "ts_unit": rng.choice(["s", "s", "ms", "us", "ns"]), "pnull": pnull,
             "dt_u": dt_u, "dt_i": dt_i,                       # integer dtype of the declared entity lists (None: strings)
             "allow_repeats": rng.chance(1, 5), "style": "malformed" if malformed else "valid"}
 
-    def unknown_rows(k):
+    def unknown_rows(k, cols=None):
         "records naming an identifier the generator never declares (to be filtered / rejected, never attached)"
         out = []
         for _ in range(k):
             which = rng.weighted([("user", 3), ("item", 3), ("both", 1)])
             u = rng.choice(adv_u) if which in ("user", "both") else rng.choice(users)
             i = rng.choice(adv_i) if which in ("item", "both") else rng.choice(items)
-            out.append(gen_row(rng, u, i, schema))
+            out.append(gen_row(rng, u, i, schema, pnull, cols))
         return out
+
+    def batch_cols():
+        names = [a for a in ATTRS if schema[a]]
+        return [a for a in names if not (ragged and rng.chance(1, 3))]
 
     if not malformed and rng.chance(1, 4):
         # from_interactions_df
         pairs = rng.sample([(u, i) for u in users for i in items], rng.randint(1, min(nu * ni, 14)))
-        rows = [gen_row(rng, u, i, schema) for u, i in pairs]
+        rows = [gen_row(rng, u, i, schema, pnull) for u, i in pairs]
         case["driver"] = "fidf"
         case["fidf"] = {"users": rng.shuffle(rng.subset(users, 3, 4)) if rng.chance(1, 2) else None,
                         "items": rng.shuffle(rng.subset(items, 3, 4)) if rng.chance(1, 2) else None, "rows": rows,
@@ -164,10 +204,12 @@ def gen_case(rng, malformed=False):
             pol = "insert"
         if pol == "error":
             batch = [(u, i) for u, i in batch if u in known["user"] and i in known["item"]]
-        rows = [gen_row(rng, u, i, schema) for u, i in batch]
+        cols = batch_cols()
+        rows = [gen_row(rng, u, i, schema, pnull, cols) for u, i in batch]
         if pol == "filter" and rng.chance(1, 2):
-            rows = rng.shuffle(rows + unknown_rows(rng.randint(1, 2)))
-        ops.append({"op": "add_interactions", "rows": rows, "missing": pol,
+            rows = rng.shuffle(rows + unknown_rows(rng.randint(1, 2), cols))
+        seen_ts += [r[3] for r in rows if r[3] is not None]
+        ops.append({"op": "add_interactions", "rows": rows, "missing": pol, "cols": cols,
                     "dtype_u": pick_dtype(rng, dt_u), "dtype_i": pick_dtype(rng, dt_i)})
         if pol == "insert":
             known["user"] = (known["user"] or set()) | {u for u, _ in batch}
@@ -193,8 +235,10 @@ def gen_case(rng, malformed=False):
                 f = {"op": "filter", "lo": None, "hi": None, "remove": None,
                      "dtype_u": pick_dtype(rng, dt_u), "dtype_i": pick_dtype(rng, dt_i)}
                 if kindf in ("time", "both"):
-                    f["lo"] = rng.randint(0, 12) if rng.chance(2, 3) else None
-                    f["hi"] = rng.randint(8, 21) if rng.chance(2, 3) or f["lo"] is None else None
+                    if rng.chance(2, 3):
+                        f["lo"], f["style_lo"] = gen_bound(rng, seen_ts, True)
+                    if rng.chance(2, 3) or f["lo"] is None:
+                        f["hi"], f["style_hi"] = gen_bound(rng, seen_ts, False)
                 if kindf in ("pairs", "both"):
                     f["remove"] = {"kind": "pairs", "vals": [[rng.choice(uids), rng.choice(iids)] for _ in range(rng.randint(0, 4))]}
                 elif kindf == "users":
@@ -205,7 +249,7 @@ def gen_case(rng, malformed=False):
         if rng.chance(1, 20):
             ops.append({"op": "clear"})
     if malformed:
-        kindm = rng.choice(["dup-ids", "reinsert", "unknown-error", "repeat-pair", "time-no-ts", "filter-no-table", "late-repeat"])
+        kindm = rng.choice(["dup-ids", "reinsert", "unknown-error", "repeat-pair", "time-no-ts", "filter-no-table", "late-repeat", "time-col-absent"])
         pos = rng.randint(0, len(ops))
         if kindm == "dup-ids":
             ids = rng.shuffle(users[:2] + users[:1])
@@ -213,7 +257,7 @@ def gen_case(rng, malformed=False):
         elif kindm == "reinsert":
             ops.append({"op": "add_entities", "cls": "item", "ids": rng.shuffle(items), "dup": "error"})
         elif kindm == "unknown-error":
-            rows = unknown_rows(1) + ([gen_row(rng, rng.choice(users), rng.choice(items), schema)] if rng.chance(1, 2) else [])
+            rows = unknown_rows(1) + ([gen_row(rng, rng.choice(users), rng.choice(items), schema, pnull)] if rng.chance(1, 2) else [])
             ops.insert(pos, {"op": "add_interactions", "rows": rng.shuffle(rows), "missing": "error",
                              "dtype_u": pick_dtype(rng, dt_u), "dtype_i": pick_dtype(rng, dt_i)})
         elif kindm in ("repeat-pair", "late-repeat"):
@@ -221,20 +265,35 @@ def gen_case(rng, malformed=False):
             adds = [o for o in ops if o["op"] == "add_interactions" and o["rows"]]
             if adds:
                 src = rng.choice(adds)["rows"][0]
-                row = gen_row(rng, src[0], src[1], schema)
                 if kindm == "repeat-pair":
-                    rng.choice(adds)["rows"].append(row)
+                    tgt = rng.choice(adds)
+                    tgt["rows"].append(gen_row(rng, src[0], src[1], schema, pnull, tgt.get("cols")))
                 else:
-                    ops.append({"op": "add_interactions", "rows": [row], "missing": "insert"})
+                    ops.append({"op": "add_interactions", "rows": [gen_row(rng, src[0], src[1], schema, pnull)], "missing": "insert"})
         elif kindm == "time-no-ts":
             case["schema"]["timestamp"] = False
             for o in ops:
                 if o["op"] == "add_interactions":
                     for r in o["rows"]:
                         r[3] = None
+                    if "cols" in o:
+                        o["cols"] = [c for c in o["cols"] if c != "timestamp"]
                 if o["op"] == "filter":
                     o["lo"] = o["hi"] = None
             ops.insert(pos, {"op": "filter", "lo": 3, "hi": None, "remove": None})
+        elif kindm == "time-col-absent":
+            # the schema has timestamps but no frame before the filter carried the column
+            case["schema"]["timestamp"] = True
+            for o in ops[:pos]:
+                if o["op"] == "add_interactions":
+                    for r in o["rows"]:
+                        r[3] = None
+                    o["cols"] = [c for c in o.get("cols", attr_names(case)) if c != "timestamp"]
+            for o in ops[pos:]:
+                if o["op"] == "add_interactions" and "timestamp" not in o.get("cols", []):
+                    for r in o["rows"]:
+                        r[3] = None
+            ops.insert(pos, {"op": "filter", "lo": "7/2", "hi": None, "remove": None, "style_lo": "float"})
         elif kindm == "filter-no-table":
             ops.insert(0, {"op": "filter", "lo": None, "hi": None, "remove": {"kind": rng.choice(["users", "pairs", "items"]), "vals": []}})
             if ops[0]["remove"]["kind"] == "pairs":
@@ -301,8 +360,14 @@ def attr_names(case):
 
 
 def row_attrs(case, row):
-    "attribute values of an input row as the integers the model carries (rating doubled)"
+    "attribute values of an input row as the integers the model carries (rating doubled; None = missing), one per schema column"
     return [v for a, v in zip(ATTRS, row[2:5]) if case["schema"][a]]
+
+
+def op_cols(case, o):
+    "the attribute columns the frame of an add_interactions operation carries"
+    names = attr_names(case)
+    return [a for a in names if a in o["cols"]] if "cols" in o else names
 
 
 # ---------------------------------------------------------------------------------------------
@@ -339,19 +404,56 @@ def _ids_array(kind, ids, style, dtype=None):
     return np.array(ids, dtype=object) if style == "numpy" else list(ids)
 
 
-def _frame(case, rows, style, dtype_u=None, dtype_i=None):
+TS_SCALE = {"s": 1, "ms": 10 ** 3, "us": 10 ** 6, "ns": 10 ** 9}
+
+
+def _frame(case, rows, style, dtype_u=None, dtype_i=None, names=None):
+    """an interaction frame with the attribute columns `names` (default: the whole schema); a missing value is an Arrow null, which a
+    pandas frame shows as NaN (float, also for the integer columns) / NaT"""
+    names = attr_names(case) if names is None else names
     cols = {"user_id": _ids_array(case["kind_u"], [r[0] for r in rows], "arrow", dtype_u),
             "item_id": _ids_array(case["kind_i"], [r[1] for r in rows], "arrow", dtype_i)}
-    if case["schema"]["rating"]:
-        cols["rating"] = pa.array([r[2] / 2 for r in rows], type=pa.float64())
-    if case["schema"]["timestamp"]:
-        cols["timestamp"] = pa.array([r[3] for r in rows], type=pa.int64() if case.get("ts_kind", "int") == "int" else pa.timestamp("s"))
-    if case["schema"]["extra"]:
+    if "rating" in names:
+        cols["rating"] = pa.array([None if r[2] is None else r[2] / 2 for r in rows], type=pa.float64())
+    if "timestamp" in names:
+        if case.get("ts_kind", "int") == "int":
+            cols["timestamp"] = pa.array([r[3] for r in rows], type=pa.int64())
+        else:
+            unit = case.get("ts_unit", "s")
+            cols["timestamp"] = pa.array([None if r[3] is None else r[3] * TS_SCALE[unit] for r in rows], type=pa.int64()).cast(pa.timestamp(unit))
+    if "extra" in names:
         cols["extra"] = pa.array([r[4] for r in rows], type=pa.int64())
     tbl = pa.table(cols)
     if style == "pandas" and rows:
         return tbl.to_pandas()
     return tbl
+
+
+def _isnull(v):
+    if v is None:
+        return True
+    try:
+        return bool(pd.isna(v))
+    except (TypeError, ValueError):
+        return False
+
+
+def _bound(case, q, style, k):
+    "a time bound as the caller passes it: int / float UNIX seconds, or a naive date-time (UTC for timestamp columns, local for integer ones)"
+    if q is None:
+        return None
+    import datetime as dt
+    q = Fraction(q)
+    typed = case.get("ts_kind", "int") == "datetime"
+    if style is None:                                   # replays recorded before bound styles existed
+        style = "datetime" if typed and k % 2 else "int"
+    if style == "int" and q.denominator == 1:
+        return int(q)
+    if style != "datetime":
+        return float(q)
+    if typed:
+        return dt.datetime(1970, 1, 1) + dt.timedelta(microseconds=int(q * 10 ** 6))
+    return dt.datetime.fromtimestamp(float(q))
 
 
 def _errcode(e):
@@ -381,8 +483,8 @@ def _apply(dsb, case, o, k):
         kind = case["kind_u"] if o["cls"] == "user" else case["kind_i"]
         dsb.add_entities(o["cls"], _ids_array(kind, o["ids"], style if style != "pandas" else "numpy", o.get("dtype")), duplicates=o["dup"])
     elif o["op"] == "add_interactions":
-        dsb.add_interactions("rating", _frame(case, o["rows"], "pandas" if k % 2 == 0 else "arrow", o.get("dtype_u"), o.get("dtype_i")),
-                             missing=o["missing"])
+        dsb.add_interactions("rating", _frame(case, o["rows"], "pandas" if k % 2 == 0 else "arrow", o.get("dtype_u"), o.get("dtype_i"),
+                                              op_cols(case, o)), missing=o["missing"])
     elif o["op"] == "filter":
         rem = None
         if o["remove"]:
@@ -396,11 +498,7 @@ def _apply(dsb, case, o, k):
                 rem = pa.table({"item_id": _ids_array(case["kind_i"], vals, "arrow", o.get("dtype_i"))})
             if k % 2 and len(vals):
                 rem = rem.to_pandas()
-        lo, hi = o["lo"], o["hi"]
-        if case.get("ts_kind", "int") == "datetime" and k % 2:
-            import datetime as dt
-            lo = None if lo is None else dt.datetime(1970, 1, 1) + dt.timedelta(seconds=lo)
-            hi = None if hi is None else dt.datetime(1970, 1, 1) + dt.timedelta(seconds=hi)
+        lo, hi = _bound(case, o["lo"], o.get("style_lo"), k), _bound(case, o["hi"], o.get("style_hi"), k)
         dsb.filter_interactions("rating", min_time=lo, max_time=hi, remove=rem)
     elif o["op"] == "clear":
         dsb.clear_relationships("rating")
@@ -415,8 +513,10 @@ def _attr_vals(case, cols, getter, n):
         if a in cols:
             vals = getter(a)
             for k in range(n):
-                v = vals[k]
-                if a == "rating":
+                v = None if vals is None else vals[k]     # a field an ItemList does not have: every value is missing
+                if _isnull(v):
+                    out[k].append(None)
+                elif a == "rating":
                     f = Fraction(float(v)) * 2
                     if f.denominator != 1:
                         raise ValueError(f"rating {v} is not a multiple of 1/2")
@@ -424,6 +524,13 @@ def _attr_vals(case, cols, getter, n):
                 else:
                     out[k].append(_int(v))
     return out
+
+
+def _tolist(arr):
+    "a NumPy column as Python values; date-times of every unit as pandas Timestamps (datetime64[ns].tolist() gives bare integers)"
+    if getattr(getattr(arr, "dtype", None), "kind", "") == "M":
+        return [None if np.isnat(x) else pd.Timestamp(x) for x in arr]
+    return arr.tolist()
 
 
 def _int(v):
@@ -450,15 +557,19 @@ def _tab(case, cols, getter, ucol, icol, conv_u=int, conv_i=int):
 
 
 def _vals(field, data):
+    "values of a matrix view as model integers; NaN (a missing value) -> None"
     if field == "rating":
         out = []
         for v in data:
+            if _isnull(v):
+                out.append(None)
+                continue
             f = Fraction(float(v)) * 2
             if f.denominator != 1:
                 raise ValueError(f"value {v} is not a multiple of 1/2")
             out.append(int(f))
         return out
-    return [_int(v) for v in data]
+    return [None if _isnull(v) else _int(v) for v in data]
 
 
 def _py(x):
@@ -515,6 +626,8 @@ def run_impl(case):
 
     t = ds.interaction_table(format="arrow")
     cols = obs["columns"] = list(t.column_names)
+    if "timestamp" in cols:
+        obs["ts_type"] = str(t.schema.field("timestamp").type)
     fields = [a for a in ATTRS if a in cols]
 
     def _sec0():  # record tables
@@ -522,7 +635,7 @@ def run_impl(case):
         p = ds.interaction_table(format="pandas")
         V.append(["table", "pandas", _tab(case, list(p.columns), lambda c: p[c].tolist(), "user_num", "item_num")])
         n = ds.interaction_table(format="numpy")
-        V.append(["table", "numpy", _tab(case, list(n.keys()), lambda c: n[c].tolist(), "user_num", "item_num")])
+        V.append(["table", "numpy", _tab(case, list(n.keys()), lambda c: _tolist(n[c]), "user_num", "item_num")])
         p = ds.interaction_matrix(format="pandas")
         V.append(["table", "matrix-pandas", _tab(case, list(p.columns), lambda c: p[c].tolist(), "user_num", "item_num")])
         ident = lambda x: x  # noqa: E731
@@ -572,8 +685,9 @@ def run_impl(case):
         def row_obs(il):
             nums = il.numbers().tolist()
             ids = [_py(x) for x in il.ids().tolist()]
-            names = [a for a in ATTRS if il.field(a) is not None]
-            at = _attr_vals(case, names, lambda a: il.field(a).tolist(), len(nums))
+            # an ItemList drops a field whose values are all missing (documented): such a field reads as missing values
+            names = [a for a in ATTRS if a in cols]
+            at = _attr_vals(case, names, lambda a: None if il.field(a) is None else _tolist(il.field(a)), len(nums))
             return [[i, k, a] for i, k, a in zip(ids, nums, at)]
 
         for u in list(case["uids"]):
@@ -648,9 +762,10 @@ def c_ops(case, um, im):
             dup = "DupError" if o["dup"] == "error" else "DupUpdate"
             out.append(f"AddEntities {'User' if o['cls'] == 'user' else 'Item'} {clist([mp[x] for x in o['ids']], cz)} {dup}")
         elif o["op"] == "add_interactions":
-            rows = clist(o["rows"], lambda r: f"({cz(um[r[0]])}, {cz(im[r[1]])}, {clist(row_attrs(case, r), cz)})")
+            rows = clist(o["rows"], lambda r: f"({cz(um[r[0]])}, {cz(im[r[1]])}, {c_attrs(row_attrs(case, r))})")
             pol = {"insert": "MInsert", "filter": "MFilter", "error": "MError"}[o["missing"]]
-            out.append(f"AddInteractions {rows} {pol}")
+            carried = op_cols(case, o)
+            out.append(f"AddInteractions {rows} {clist([a in carried for a in attr_names(case)], cbool)} {pol}")
         elif o["op"] == "filter":
             rem = "None"
             if o["remove"]:
@@ -661,16 +776,21 @@ def c_ops(case, um, im):
                     rem = f"(Some (RemUsers {clist([um[x] for x in vals], cz)}))"
                 else:
                     rem = f"(Some (RemItems {clist([im[x] for x in vals], cz)}))"
-            out.append(f"FilterInteractions {copt(o['lo'], cz)} {copt(o['hi'], cz)} {rem}")
+            out.append(f"FilterInteractions {copt(qv(o['lo']), cq)} {copt(qv(o['hi']), cq)} {rem}")
         else:
             out.append("Clear")
     return "[" + "; ".join(out) + "]"
 
 
+def c_attrs(a):
+    "attribute values, None = missing"
+    return clist(a, lambda v: copt(v, cz))
+
+
 def c_orow(r, fu=None, fi=None):
     u = r[0] if fu is None else fu[r[0]]
     i = r[1] if fi is None else fi[r[1]]
-    return f"({cz(u)}, {cz(i)}, {clist(r[2], cz)})"
+    return f"({cz(u)}, {cz(i)}, {c_attrs(r[2])})"
 
 
 def c_field(case, fld):
@@ -692,9 +812,9 @@ def c_views(case, obs, um, im):
         elif k == "table_ids":
             out.append(f"OTableIds {clist(v[2], lambda r: c_orow(r, um, im))}")
         elif k == "csr":
-            out.append(f"OCsr {c_field(case, v[1])} {clist(v[3], cz)} {clist(v[4], cz)} {clist(v[5], cz)} {cz(v[6])} {cz(v[7])}")
+            out.append(f"OCsr {c_field(case, v[1])} {clist(v[3], cz)} {clist(v[4], cz)} {c_attrs(v[5])} {cz(v[6])} {cz(v[7])}")
         elif k == "coo":
-            out.append(f"OCoo {c_field(case, v[1])} {clist(v[3], cz)} {clist(v[4], cz)} {clist(v[5], cz)} {cz(v[6])} {cz(v[7])}")
+            out.append(f"OCoo {c_field(case, v[1])} {clist(v[3], cz)} {clist(v[4], cz)} {c_attrs(v[5])} {cz(v[6])} {cz(v[7])}")
         elif k == "nnz":
             out.append(f"ONnz {cz(v[2]) if isinstance(v[2], int) else cz(-1)}")
         elif k == "user_row":
@@ -745,8 +865,8 @@ def expected(case):
     """The property's reading of the operation list on identifiers only: expected error class per operation,
     known identifiers after each operation (as sets), surviving records."""
     known = {"user": None, "item": None}
-    recs = []            # (uid, iid, attrs)
-    cols = False
+    recs = []            # (uid, iid, attrs): one value per schema column, None = missing
+    cols = set()         # the attribute columns the relationship table carries
     repeats = "allowed" if (case["allow_repeats"] and case["driver"] == "builder") else "forbidden"
     log = []
     sch = case["schema"]
@@ -781,23 +901,22 @@ def expected(case):
                 allr = recs + add
                 dup = len({(a, b) for a, b, _ in allr}) < len(allr)
                 if repeats == "present" or not dup:
-                    recs, cols = allr, True
+                    recs, cols = allr, cols | set(op_cols(case, o))
                 elif repeats == "allowed":
-                    recs, cols, repeats = allr, True, "present"
+                    recs, cols, repeats = allr, cols | set(op_cols(case, o)), "present"
                 else:
                     err = 1
         elif o["op"] == "filter":
             wants = o["lo"] is not None or o["hi"] is not None
             rem = o["remove"]
-            if wants and not (cols and sch["timestamp"]):
+            lo_q, hi_q = qv(o["lo"]), qv(o["hi"])
+            if wants and not (sch["timestamp"] and "timestamp" in cols):
                 err = 3
             elif rem and ((rem["kind"] in ("pairs", "users") and known["user"] is None) or (rem["kind"] in ("pairs", "items") and known["item"] is None)):
                 err = 4
             else:
                 def keep(r):
-                    if o["lo"] is not None and not r[2][tspos] >= o["lo"]:
-                        return False
-                    if o["hi"] is not None and not r[2][tspos] < o["hi"]:
+                    if wants and not in_window(r[2][tspos], lo_q, hi_q):
                         return False
                     if rem:
                         if rem["kind"] == "pairs" and [r[0], r[1]] in [list(p) for p in rem["vals"]]:
@@ -809,13 +928,31 @@ def expected(case):
                     return True
                 recs = [r for r in recs if keep(r)]
         elif o["op"] == "clear":
-            recs, cols = [], False
+            recs, cols = [], set()
         log.append((err, set(known["user"] or ()), set(known["item"] or ())))
     return log, recs, cols, repeats
 
 
-def _ms(recs):
-    return Counter((u, i, tuple(a)) for u, i, a in recs)
+def in_window(t, lo, hi):
+    "min_time <= t < max_time (exact rationals); a record without a timestamp is in no window"
+    if t is None:
+        return False
+    return (lo is None or lo <= t) and (hi is None or t < hi)
+
+
+def _ms(recs, idx=None):
+    "multiset of (user, item, values of the carried columns)"
+    return Counter((u, i, tuple(a) if idx is None else tuple(a[k] for k in idx)) for u, i, a in recs)
+
+
+def _source(case, u, i):
+    "-> (operation index, operation, row) of the input records naming the pair (u, i)"
+    return [(k, o, r) for k, o in enumerate(ops_of(case)) if o["op"] == "add_interactions" for r in o["rows"] if (r[0], r[1]) == (u, i)]
+
+
+def _windows_after(case, k):
+    return [(j, qv(o["lo"]), qv(o["hi"])) for j, o in enumerate(ops_of(case))
+            if j > k and o["op"] == "filter" and (o["lo"] is not None or o["hi"] is not None)]
 
 
 def oracle(case, obs):
@@ -882,8 +1019,9 @@ def oracle(case, obs):
         bad("numbers-not-contiguous", f"entity numbers are not 0..n-1: {obs['entity_numbers']}")
     if obs["counts"] != [len(users), len(items), len(recs)]:
         bad("counts", f"user/item/interaction counts {obs['counts']} != {[len(users), len(items), len(recs)]}")
-    want = _ms(recs)
-    names = attr_names(case) if cols else []
+    names = [a for a in attr_names(case) if a in cols]
+    idx = [k for k, a in enumerate(attr_names(case)) if a in cols]
+    want = _ms(recs, idx)
     tv = next((x for x in obs["views"] if x[0] == "table_ids"), None)
     if tv is not None:
         try:
@@ -895,11 +1033,40 @@ def oracle(case, obs):
                 if opx["op"] != "add_interactions":
                     continue
                 for r in opx["rows"]:
-                    if tuple(row_attrs(case, r)) == a and (r[0], r[1]) != (u, i) and (r[0] == u or r[0] not in ku) and (r[1] == i or r[1] not in ki):
+                    if tuple(row_attrs(case, r)[k] for k in idx) == a and (r[0], r[1]) != (u, i) and (r[0] == u or r[0] not in ku) and (r[1] == i or r[1] not in ki):
                         bad(f"unknown-id-mapped:{opx['missing']}",
                             f"the input record (user {r[0]!r}, item {r[1]!r}) names an identifier unknown to the dataset "
                             f"(known users {sorted(ku, key=str)}, items {sorted(ki, key=str)}) but appears in the dataset attached to "
                             f"user {u!r}, item {i!r} (policy missing={opx['missing']!r})")
+        tspos = 1 if case["schema"]["rating"] else 0
+        got_pairs, want_pairs = {(u, i) for u, i, _ in got}, {(u, i) for u, i, _ in want}
+        for u, i, a in recs:
+            if (u, i) in got_pairs:
+                continue
+            # a surviving input record is in no view: say which record, how it entered and what is special about it
+            for k, opx, r in _source(case, u, i)[-1:]:
+                ra = row_attrs(case, r)
+                holes = [n for n, x in zip(attr_names(case), ra) if x is None and n in op_cols(case, opx)]
+                wins = _windows_after(case, k)
+                if holes:
+                    bad(f"record-lost:{opx['missing']}:missing-value",
+                        f"the input record (user {u!r}, item {i!r}, {dict(zip(attr_names(case), ra))}) of operation {k} (policy "
+                        f"missing={opx['missing']!r}) names known identifiers and has no value for {holes}; it must be kept but is in no view")
+                elif wins and case["schema"]["timestamp"]:
+                    bad("time-window:lost-inside",
+                        f"the input record (user {u!r}, item {i!r}) of operation {k} has timestamp {ra[tspos]}, inside every time window applied "
+                        f"afterwards ({[(j, str(lo_), str(hi_)) for j, lo_, hi_ in wins]}: min_time <= t < max_time), but is in no view")
+                else:
+                    bad(f"record-lost:{opx['missing']}", f"the input record (user {u!r}, item {i!r}) of operation {k} (policy "
+                        f"missing={opx['missing']!r}) must be kept but is in no view")
+        for (u, i) in sorted(got_pairs - want_pairs, key=str):
+            for k, opx, r in _source(case, u, i)[-1:]:
+                t_ = row_attrs(case, r)[tspos] if case["schema"]["timestamp"] else None
+                out = [(j, str(lo_), str(hi_)) for j, lo_, hi_ in _windows_after(case, k) if not in_window(t_, lo_, hi_)]
+                if out:
+                    bad("time-window:kept-outside",
+                        f"the input record (user {u!r}, item {i!r}) of operation {k} has timestamp {t_}, outside the time window of operation(s) "
+                        f"{out} (min_time <= t < max_time), but is still in the dataset")
 
     def proj(fld):
         if fld is None:
@@ -970,20 +1137,27 @@ def oracle(case, obs):
                     if r[0] != len(mine) or r[2] != len(mine) or r[1] != len({x[1 - col] for x in mine}):
                         bad(f"stats:{cls}:counts", f"{cls} {e!r}: counts {r[:3]} but {len(mine)} surviving records")
                     if "rating" in names:
-                        if r[3] is None or r[3][0] != len(mine):
-                            bad(f"stats:{cls}:rating", f"{cls} {e!r}: rating count {r[3]}")
-                        elif mine:
+                        rated = [x[2][0] for x in mine if x[2][0] is not None]      # the records of this entity that carry a rating
+                        if r[3] is None or r[3][0] != len(rated):
+                            bad(f"stats:{cls}:rating", f"{cls} {e!r}: rating count {r[3] and r[3][0]} but {len(rated)} of its {len(mine)} "
+                                                       f"surviving records carry a rating")
+                        elif rated:
                             m = fparse(r[3][1]) if r[3][1] is not None else None
-                            wantm = Fraction(sum(x[2][0] for x in mine), 2 * len(mine))
+                            wantm = Fraction(sum(rated), 2 * len(rated))
                             if m is None or abs(m - wantm) > Fraction(1, 10 ** 9):
-                                bad(f"stats:{cls}:mean", f"{cls} {e!r}: mean rating {r[3][1]} != {wantm}")
+                                bad(f"stats:{cls}:mean", f"{cls} {e!r}: mean rating {r[3][1]} != {wantm} (mean of the ratings that exist)")
                         elif r[3][1] is not None:
-                            bad(f"stats:{cls}:mean-inactive", f"{cls} {e!r} has no records but a mean rating {r[3][1]}")
+                            bad(f"stats:{cls}:mean-inactive", f"{cls} {e!r} has no rating but a mean rating {r[3][1]}")
+                    elif r[3] is not None:
+                        bad(f"stats:{cls}:rating-column", f"{cls} statistics have rating columns but the records carry no rating column")
                     if "timestamp" in names:
                         k = attr_names(case).index("timestamp")
-                        wt = [min(x[2][k] for x in mine), max(x[2][k] for x in mine)] if mine else [None, None]
+                        times = [x[2][k] for x in mine if x[2][k] is not None]
+                        wt = [min(times), max(times)] if times else [None, None]
                         if r[4] != wt:
                             bad(f"stats:{cls}:times", f"{cls} {e!r}: first/last time {r[4]} != {wt}")
+                    elif r[4] is not None:
+                        bad(f"stats:{cls}:time-column", f"{cls} statistics have time columns but the records carry no timestamp column")
             elif kind == "number":
                 _, cls, t_, n_, n2, raised = view
                 ids = users if cls == "user" else items
@@ -1040,7 +1214,33 @@ def counters(case, obs):
     yield "build=" + str(obs["build"])
     yield "attrs=" + ",".join(attr_names(case))
     if case["schema"]["timestamp"]:
-        yield "timestamp-type=" + case.get("ts_kind", "int")
+        yield "timestamp-type=" + (case.get("ts_kind", "int") if case.get("ts_kind", "int") == "int" else "timestamp[" + case.get("ts_unit", "s") + "]")
+    if obs.get("ts_type"):
+        yield "timestamp-column-built-as=" + obs["ts_type"]
+    allrows = [(o, r) for o in ops_of(case) if o["op"] == "add_interactions" for r in o["rows"]]
+    nmiss = sum(1 for o, r in allrows for a, x in zip(attr_names(case), row_attrs(case, r)) if x is None and a in op_cols(case, o))
+    yield "missing-values=" + ("none" if nmiss == 0 else "1-3" if nmiss < 4 else "4+")
+    for a in attr_names(case):
+        for pol in {o["missing"] for o, r in allrows if a in op_cols(case, o) and r[2 + ATTRS.index(a)] is None}:
+            yield f"missing-{a}-under:{pol}"
+    if any(set(op_cols(case, o)) != set(attr_names(case)) for o in ops_of(case) if o["op"] == "add_interactions"):
+        yield "batch-lacking-a-column"
+    if obs["build"] == 0:
+        for v in obs["views"]:
+            if v[0] == "stats" and any(r[3] is not None and r[3][0] < r[0] for r in v[3]):
+                yield "stats:rating-count<record-count"
+                break
+    stamps = {r[3] for _, r in allrows if r[3] is not None}
+    for o in ops_of(case):
+        if o["op"] == "filter":
+            for side in ("lo", "hi"):
+                q = qv(o[side])
+                if q is not None:
+                    yield "time-bound=" + ("whole" if q.denominator == 1 else "fractional") + ":" + o.get("style_" + side, "legacy")
+                    if q.denominator != 1 and (q.numerator // q.denominator) in stamps:
+                        yield "fractional-bound-with-record-at-its-floor:" + side
+                    if q.denominator == 1 and int(q) in stamps:
+                        yield "whole-bound-with-record-at-it:" + side
     ops = ops_of(case)
     yield "ops=" + str(min(len(ops), 9))
     for o, l in zip(ops, obs["log"] or [[None]] * len(ops)):
@@ -1063,7 +1263,13 @@ def sample(case, obs):
                                            "views": [v for v in obs["views"] if v[0] in ("table_ids", "stats")][:3]}}
 
 
+_SHRUNK = [0]
+
+
 def shrink(case, fails):
+    _SHRUNK[0] += 1
+    if _SHRUNK[0] > 5:           # every trial rebuilds the dataset and dumps all views: shrink the first few keys only
+        return case
     c = dict(case)
     if case["driver"] == "builder":
         c["ops"] = common.shrink_list(case["ops"], lambda xs: fails({**c, "ops": xs}), 40)
